@@ -1,7 +1,7 @@
 #!/bin/bash
 # tools_seed.sh <seed dir or patch> <Cxx> [tier]: apply a seeded change to /repo, run the check, undo it.
 set -u
-P="$1"; [ -d "$P" ] && P="$P/patch.diff"
+P="$(realpath "$1")"; [ -d "$P" ] && P="$P/patch.diff"
 C="$2"; T="${3:-quick}"
 git -C /repo diff --quiet || { echo "/repo is dirty"; exit 2; }
 git -C /repo apply "$P" || { echo "patch does not apply"; exit 2; }
